@@ -240,7 +240,7 @@ impl Prop for C27 {
             }
         };
         // amount 0
-        for kind in ["ok", "ok", "invalid", "other"] {
+        for kind in ["ok", "ok", "ok", "ok", "ok", "ok", "invalid", "invalid", "other", "other"] {
             let from = rng.range(1, 60);
             out.op(
                 format!("gvr from={from} fromkind={kind} amount=0 chain={CHAIN} order={} beh=f fuel=40", pat(rng)),
@@ -253,7 +253,7 @@ impl Prop for C27 {
             (1..=600).collect()
         } else {
             let mut v: Vec<u64> = vec![1, 2, 7, 8, 9, 63, 64, 65, 127, 128, 129, 511, 512, 513, 520, 600];
-            for _ in 0..14 {
+            for _ in 0..70 {
                 v.push(rng.range(1, 600));
             }
             v
@@ -267,7 +267,7 @@ impl Prop for C27 {
             );
         }
         // faulty peers that eventually deliver, truncating peers, permanent faults, short chains
-        let n = if thorough { 400 } else { 40 };
+        let n = if thorough { 1500 } else { 300 };
         for _ in 0..n {
             let from = rng.range(1, 60);
             let amount = rng.range(1, 300);
